@@ -258,7 +258,7 @@ type Stream struct {
 }
 
 type State struct {
-	Now    int64 // unix nanoseconds of the current block
+	Now    *big.Int // unix nanoseconds of the current block (beyond int64 range after year 2262)
 	Bal    map[string]map[string]*big.Int
 	Supply map[string]*big.Int
 	Ent    Ent
@@ -270,7 +270,13 @@ type State struct {
 	FeeAl  map[string]bool // granter|grantee
 	// ledgers of cancelled streams are kept for the conservation identity
 	Closed []*Stream
+	// transient: total released / refunded by the stream message executed last (nil if none)
+	LastRelease, LastRefund *big.Int
+	// ObsLedger: per-stream ledger built from OBSERVED balance movements (harness state, C10)
+	ObsLedger map[string]*Ledger
 }
+
+type Ledger struct{ Deposited, Paid, Fees, Refunded *big.Int }
 
 func (s *State) Clone() *State {
 	bz, err := json.Marshal(s)
@@ -293,7 +299,11 @@ func (s *State) Canon() []byte {
 	return bz
 }
 
-func (s *State) NowS() int64 { return floorDiv(s.Now, 1_000_000_000) }
+func (s *State) NowS() int64 {
+	q, m := new(big.Int).DivMod(s.Now, nsPerS, new(big.Int))
+	_ = m
+	return q.Int64()
+}
 
 func floorDiv(a, b int64) int64 {
 	q := a / b
@@ -367,8 +377,8 @@ func (f *Fail) Error() string { return fmt.Sprintf("msg %d (%s): %s", f.Idx, f.K
 // BeginBlock applies what every block does before transactions: fee collector sweep (SDK
 // distribution), then enterprise: complete accepted orders, then tally raised ones.
 // It returns the ids completed, accepted and rejected in this block.
-func (s *State) BeginBlock(nowNs int64) (completed, accepted, rejected []uint64) {
-	s.Now = nowNs
+func (s *State) BeginBlock(nowNs *big.Int) (completed, accepted, rejected []uint64) {
+	s.Now = cpI(nowNs)
 	for d, v := range s.Bal[ModFee] {
 		s.move(ModFee, ModDist, d, cpI(v))
 	}
@@ -493,6 +503,7 @@ func (s *State) FeeEffects(tx Tx) (unlocked *big.Int) {
 
 // ExecMsgs applies the messages atomically; on failure the state is left untouched.
 func (s *State) ExecMsgs(env Env, tx Tx) *Fail {
+	s.LastRelease, s.LastRefund = nil, nil
 	c := s.Clone()
 	idx := 0
 	for _, m := range tx.Msgs {
@@ -755,6 +766,8 @@ func (s *State) AnchorFee(m Msg) (*big.Int, bool) {
 
 func skey(recv, sender string) string { return recv + "|" + sender }
 
+func (s *State) FeeRat() *big.Rat { return s.feeRat() }
+
 func (s *State) feeRat() *big.Rat {
 	r, ok := new(big.Rat).SetString(s.FeeNum)
 	if !ok {
@@ -765,7 +778,7 @@ func (s *State) feeRat() *big.Rat {
 
 // ReleaseAmount: what a release at the current block time pays out in total (before the fee split).
 func (s *State) ReleaseAmount(st *Stream) *big.Int {
-	now := I(s.Now)
+	now := cpI(s.Now)
 	if now.Cmp(st.Z) >= 0 {
 		return cpI(st.D)
 	}
@@ -788,13 +801,14 @@ func (s *State) FeeSplit(x *big.Int) (*big.Int, *big.Int) {
 
 func (s *State) release(st *Stream) {
 	x := s.ReleaseAmount(st)
+	s.LastRelease = cpI(x)
 	toRecv, fee := s.FeeSplit(x)
 	s.move(ModStr, st.Recv, st.Denom, toRecv)
 	s.move(ModStr, ModFee, st.Denom, fee)
 	st.Paid.Add(st.Paid, toRecv)
 	st.Fees.Add(st.Fees, fee)
 	st.D = new(big.Int).Sub(st.D, x)
-	st.L = I(s.Now)
+	st.L = cpI(s.Now)
 }
 
 func durNs(dep *big.Int, rate int64) *big.Int {
@@ -825,8 +839,8 @@ func (s *State) strCreate(env Env, m Msg) string {
 	if s.Spendable(env, m.From, m.Den).Cmp(d) < 0 {
 		return "insufficient_funds"
 	}
-	st := &Stream{Recv: m.To, Sender: m.From, Denom: m.Den, D: cpI(d), R: m.Rate, L: I(s.Now),
-		Z: new(big.Int).Add(I(s.Now), durNs(d, m.Rate)), Deposited: cpI(d), Paid: Z(), Fees: Z(), Refunded: Z()}
+	st := &Stream{Recv: m.To, Sender: m.From, Denom: m.Den, D: cpI(d), R: m.Rate, L: cpI(s.Now),
+		Z: new(big.Int).Add(cpI(s.Now), durNs(d, m.Rate)), Deposited: cpI(d), Paid: Z(), Fees: Z(), Refunded: Z()}
 	s.Str[skey(m.To, m.From)] = st
 	s.move(m.From, ModStr, m.Den, d)
 	return ""
@@ -860,7 +874,7 @@ func (s *State) strTopUp(env Env, m Msg) string {
 	if s.Spendable(env, m.From, m.Den).Cmp(t) < 0 {
 		return "insufficient_funds"
 	}
-	now := I(s.Now)
+	now := cpI(s.Now)
 	if now.Cmp(st.Z) >= 0 {
 		if st.D.Sign() > 0 {
 			s.release(st)
@@ -887,7 +901,7 @@ func (s *State) strUpdate(m Msg) string {
 	if st.D.Sign() > 0 {
 		s.release(st)
 	}
-	st.Z = new(big.Int).Add(I(s.Now), durNs(st.D, m.Rate))
+	st.Z = new(big.Int).Add(cpI(s.Now), durNs(st.D, m.Rate))
 	st.R = m.Rate
 	return ""
 }
@@ -901,6 +915,7 @@ func (s *State) strCancel(m Msg) string {
 		s.release(st)
 	}
 	s.move(ModStr, st.Sender, st.Denom, st.D)
+	s.LastRefund = cpI(st.D)
 	st.Refunded.Add(st.Refunded, st.D)
 	st.D = Z()
 	delete(s.Str, skey(m.To, m.From))
